@@ -172,6 +172,13 @@ def binop (op : String) (a b : Val) : Option Val :=
   | "-", .int x, .int y => some (.int (x - y))
   | "*", .int x, .int y => some (.int (x * y))
   | "+", .str x, .str y => some (.str (x ++ y))
+  -- float64 values are modelled as exact rationals with a positive denominator (`tag "rat" (num . den)`)
+  | "*", .tag "rat" (.cons (.int a) (.int b)), .tag "rat" (.cons (.int c) (.int d)) =>
+    some (.tag "rat" (.cons (.int (a * c)) (.int (b * d))))
+  | "+", .tag "rat" (.cons (.int a) (.int b)), .tag "rat" (.cons (.int c) (.int d)) =>
+    some (.tag "rat" (.cons (.int (a * d + c * b)) (.int (b * d))))
+  | ">", .tag "rat" (.cons (.int a) (.int b)), .tag "rat" (.cons (.int c) (.int d)) =>
+    some (.bool (a * d > c * b))
   | _, _, _ => none
 
 def unop (op : String) (a : Val) : Option Val :=
